@@ -176,6 +176,11 @@ def reload_side(ctx):
     # the sync worker's loop against specs/SyncLoop.tla: nothing is taken off a listen queue after the stop request, except
     # the accept that was under way
     syncloop.model_traces(ctx, {"AtMostOneAcceptAfterStop"}, "C10")
+    # the connection-level loop against specs/KeepAlive.tla: a worker that was told to stop serves at most one more
+    # request on a connection it keeps alive
+    from props import keepalive
+    keepalive.design(ctx)
+    keepalive.model_traces(ctx, {"ServedAfterStop"}, "C10")
     verdicts, stats = tlc.validate_batch("ReloadTrace", "ReloadTrace.cfg", traces, name="ReloadTrace_C10")
     ctx.add_traces(len(traces), stats)
 
